@@ -1,13 +1,18 @@
 (* C19 - The yldpc command line equals the library; debug options only add comments.
    Only statements; every proof is `exact <lemma>` to a lemma proved in Cli/.
 
-   In all theorems the library compiler `compile : str -> cres` and the debug messages
+   First group: the library compiler `compile : str -> cres` and the debug messages
    `trace : bool -> str -> str -> list (chan * str)` that the visitor and the compiler try to
-   emit are ARBITRARY functions (universally quantified). *)
+   emit are ARBITRARY functions (universally quantified).
+   Second group (`..._compiler`): the library compiler is the end-to-end model of
+   compile_prolog_from_string, Comp/CompileText.v compile_text (the function that the C11/C12/C18
+   checks compare byte for byte with the implementation); the debug messages stay arbitrary, and so
+   does the one thing compile_text does not say: with which exception (CompilerError with position
+   and message, or another one) a rejected source is refused (`failure`). *)
 From Coq Require Import String.
 From Coq Require Import List NArith Bool.
 Import ListNotations.
-From YP Require Import Base.Str Cli.Comment Cli.Cli.
+From YP Require Import Base.Str Comp.CompileText Cli.Comment Cli.Cli Cli.CliCompile.
 Local Open Scope string_scope.
 Local Open Scope list_scope.
 Local Open Scope N_scope.
@@ -25,10 +30,20 @@ Print Assumptions C19_comment_every_line.
 
 (* ... and the comment lines carry exactly the lines of the message, in order *)
 Theorem C19_comment_lines_content : forall msg,
-  plines (comment_lines msg) = map (fun l => 35 :: 32 :: l ++ [10]) (lines_or_empty msg)
-  /\ Forall nobreak (lines_or_empty msg).
+  plines (comment_lines msg) = map (fun l => 35 :: 32 :: l ++ [10]) (lines_or_empty (escape_nul msg))
+  /\ Forall nobreak (lines_or_empty (escape_nul msg)).
 Proof. exact comment_lines_content. Qed.
 Print Assumptions C19_comment_lines_content.
+
+(* D23.  Every line of the debug text is a comment line AS PYTHON READS LINES: "# ", then characters
+   none of which is NUL, LF, CR or any other line boundary of str.splitlines, then the LF that ends
+   it; and the whole text contains no NUL (Python 3.12 refuses a NUL anywhere in source text, also
+   in a comment; comment_lines writes it as backslash-zero). *)
+Theorem C19_comment_lines_clean : forall msg,
+  Forall (fun l => exists body, l = 35 :: 32 :: body ++ [10] /\ Forall comment_char body) (plines (comment_lines msg))
+  /\ Forall (fun c => c <> 0) (comment_lines msg).
+Proof. exact comment_lines_clean. Qed.
+Print Assumptions C19_comment_lines_clean.
 
 (* removing the comment lines of a commented message leaves nothing *)
 Theorem C19_strip_comment_lines : forall msg, strip (comment_lines msg) = [].
@@ -93,6 +108,66 @@ Theorem C19_missing_source : forall compile trace f outfile srcs fs stdin,
 Proof. exact missing_source_usage_error. Qed.
 Print Assumptions C19_missing_source.
 
+(* ------------------------------------------------------------------ the real compiler *)
+
+(* every text the compiler returns is the header, a newline and a body none of whose physical lines
+   starts with # and which is empty or ends with a newline: the hypothesis of
+   C19_debug_only_comments holds for compile_text (any Unicode table `printable`). *)
+Theorem C19_library_text_clean : forall printable s text, compile_text printable s = CText text ->
+  exists body, text = header ++ [10] ++ body /\ clean_body body.
+Proof. exact compile_text_clean. Qed.
+Print Assumptions C19_library_text_clean.
+
+(* "with comment lines removed the output is identical for every combination of debug options and
+   every input", no hypothesis left *)
+Theorem C19_debug_only_comments_compiler : forall printable failure trace f outfile srcs fs stdin,
+  strip_result (yldpc_lib printable failure trace f outfile srcs fs stdin)
+  = strip_result (yldpc_lib printable failure trace no_flags outfile srcs fs stdin).
+Proof. exact debug_only_comments_lib. Qed.
+Print Assumptions C19_debug_only_comments_compiler.
+
+(* "the same code the library function returns for that text": the texts are compile_text's *)
+Theorem C19_cli_equals_compile_text : forall printable failure trace outfile srcs fs stdin texts outs,
+  all_exist fs srcs ->
+  contents (fs_seen fs outfile) stdin srcs = map RText texts ->
+  Forall2 (fun t o => compile_text printable t = CText o) texts outs ->
+  yldpc_lib printable failure trace no_flags outfile srcs fs stdin = placed outfile (concat outs) EOk.
+Proof. exact cli_equals_compile_text. Qed.
+Print Assumptions C19_cli_equals_compile_text.
+
+(* ... and under any of the 16 option combinations the same up to comment lines *)
+Theorem C19_cli_equals_compile_text_debug : forall printable failure trace f outfile srcs fs stdin texts outs,
+  all_exist fs srcs ->
+  contents (fs_seen fs outfile) stdin srcs = map RText texts ->
+  Forall2 (fun t o => compile_text printable t = CText o) texts outs ->
+  strip_result (yldpc_lib printable failure trace f outfile srcs fs stdin)
+  = strip_result (placed outfile (concat outs) EOk).
+Proof. exact cli_equals_compile_text_debug. Qed.
+Print Assumptions C19_cli_equals_compile_text_debug.
+
+(* "and exits non-zero when a file does not compile, reporting syntax errors with file name and
+   position": the first source that is unreadable or that compile_text refuses ends the run with
+   exit status 1; what was written is compile_text of the sources before it; a CompilerError (syntax
+   errors are CompilerErrors) is reported as <file>:<line>:<column>:<message> *)
+Theorem C19_cli_first_failure_compiler : forall printable failure trace outfile srcs fs stdin pre it post outs,
+  all_exist fs srcs ->
+  combine srcs (contents (fs_seen fs outfile) stdin srcs) = pre ++ it :: post ->
+  Forall2 (fun it o => exists t, snd it = RText t /\ compile_text printable t = CText o) pre outs ->
+  (snd it = RBad \/ exists t, snd it = RText t /\ forall o, compile_text printable t <> CText o) ->
+  exists e, yldpc_lib printable failure trace no_flags outfile srcs fs stdin = placed outfile (concat outs) e /\ status e = 1
+    /\ (e = ECrash \/ exists l c m, e = EError (err_msg (fst it) l c m)).
+Proof. exact cli_first_failure_lib. Qed.
+Print Assumptions C19_cli_first_failure_compiler.
+
+(* exit status 0 iff every source exists, is readable and is accepted by the compiler *)
+Theorem C19_exit_status_compiler : forall printable failure trace f outfile srcs fs stdin,
+  status (r_end (yldpc_lib printable failure trace f outfile srcs fs stdin)) = 0 <->
+  (all_exist fs srcs /\
+   Forall (fun r => exists t text, r = RText t /\ compile_text printable t = CText text)
+          (contents (fs_seen fs outfile) stdin srcs)).
+Proof. exact exit_status_lib. Qed.
+Print Assumptions C19_exit_status_compiler.
+
 (* non-vacuity: a compiler that accepts "a." and rejects everything else, debug messages that try
    to smuggle code in with every kind of line break, three sources (a file, stdin, a file that does
    not compile), -d and -o: the hypotheses of the theorems hold and the output file contains the
@@ -115,4 +190,26 @@ Proof.
   - vm_compute. reflexivity.
   - vm_compute. reflexivity.
   - vm_compute. reflexivity.
+Qed.
+
+(* non-vacuity with the real compiler: `yldpc -d -o o.py x.pl - y.pl` where x.pl and stdin hold a
+   clause with a quoted atom containing a line break and y.pl has a syntax error (reported by the
+   implementation as 1:4); debug messages with every kind of line break.  The file holds the two
+   texts of compile_text between comment lines only. *)
+Example C19_nonvacuous_compiler :
+  let printable := fun _ : N => false in
+  let failure := fun _ : str => CErr 1 4 (d "mismatched input") in
+  let trace := fun (dfn : bool) (s t : str) =>
+     [(ChParser, d "visit\10;import os\13;os.x()\8232;y"); (ChGenerator, []); (ChParser, d "z\12;")] in
+  let src := d "p('a\10;import os', X) :- q(X, _)." in
+  let fs := fun s => if str_eqb s (d "x.pl") then Some (RText src) else
+                     if str_eqb s (d "y.pl") then Some (RText (d "p(a) :- .")) else None in
+  let r := yldpc_lib printable failure trace (Flags true false false false) (d "o.py") [d "x.pl"; d "-"; d "y.pl"] fs (RText src) in
+  exists text, compile_text printable src = CText text
+  /\ r_end r = EError (d "y.pl:1:4:mismatched input")
+  /\ strip_result r = strip_result (Result [] (Some (d "o.py", text ++ text)) (EError (d "y.pl:1:4:mismatched input")))
+  /\ length (plines (output r)) = 58%nat.
+Proof.
+  cbv zeta. eexists. split; [vm_compute; reflexivity|]. split; [vm_compute; reflexivity|].
+  split; vm_compute; reflexivity.
 Qed.
